@@ -219,6 +219,7 @@ func (x *Xlat) cloneSlice(st *State, s *Term, et types.Type, mincap *Term) *Term
 	i := Const("i!", SInt)
 	st.assume(Forall([]Bind{{"i!", SInt}}, Imp(And(App("<=", SBool, IntLit(0), i), App("<", SBool, i, SLen(s))),
 		Eq(Sel(fresh, i), Sel(Sel(h, SArr(s)), App("+", SInt, SOff(s), i))))))
+	st.assume(Forall([]Bind{{"i!", SInt}}, Imp(Or(App("<", SBool, i, IntLit(0)), App(">=", SBool, i, SLen(s))), Eq(Sel(fresh, i), x.tm.Zero(et)))))
 	h2 := x.setElems(st, key, es, h, Sto(h, a, fresh), touchedArr(a))
 	c := x.ctx.Fresh("cap", SInt)
 	{
